@@ -169,6 +169,12 @@ func famC18(g *Gen, o *Out, n int, thorough bool) {
 			os.WriteFile(filepath.Join(tops[0], "..2024_05_17", "inner", "f"), []byte("x"), 0o644)
 			os.WriteFile(filepath.Join(tops[0], ".hidden-too"), nil, 0o644)
 			os.Symlink("..data", filepath.Join(tops[0], "..link"))
+			// content that is mostly or wholly zero, in sizes that are whole multiples of common copy buffers
+			// (disk images, preallocated files): a trailing zero run is content, not a hole to skip
+			img := append(g.bytes(65536), make([]byte, 32768)...)
+			os.WriteFile(filepath.Join(tops[0], "disk.img"), img, 0o644)
+			os.WriteFile(filepath.Join(tops[0], "prealloc.dat"), make([]byte, 65536), 0o644)
+			os.WriteFile(filepath.Join(tops[0], "zeros-then-byte"), append(make([]byte, 40000), 1), 0o644)
 		}
 		if thorough && c == 7 { // a directory wide enough to be HAMT-sharded by the builder
 			wide := filepath.Join(tops[0], "wide")
